@@ -124,14 +124,15 @@ def expand(ix, fi, e: ast.AST, defs=None, depth: int = 4) -> ast.AST:
             def visit_Call(self, c):
                 self.generic_visit(c)
                 name = c.func.id if isinstance(c.func, ast.Name) else (c.func.attr if isinstance(c.func, ast.Attribute) and isinstance(c.func.value, ast.Name) and c.func.value.id in ("self", "cls") else None)
-                if name in helpers and d > 0 and not c.keywords:
+                if name in helpers and d > 0 and all(k.arg for k in c.keywords) and not any(isinstance(a, ast.Starred) for a in c.args):
                     h = helpers[name]
                     ps = [a.arg for a in h.args.args]
                     if ps and ps[0] in ("self", "cls") and isinstance(c.func, ast.Attribute):
                         ps = ps[1:]
-                    if len(ps) == len(c.args):
+                    sub = dict(zip(ps, c.args))
+                    sub.update({k.arg: k.value for k in c.keywords if k.arg in ps})
+                    if len(c.args) <= len(ps) and set(sub) == set(ps) and not h.args.vararg and not h.args.kwarg and not h.args.kwonlyargs:
                         body = clone(single_return(h))
-                        sub = dict(zip(ps, c.args))
 
                         class S(ast.NodeTransformer):
                             def visit_Name(self, n):
@@ -159,11 +160,14 @@ def xnorm(ix, fi, e, defs=None) -> str:
 def match(pattern: str, e: ast.AST, wild=None) -> Optional[dict]:
     """Match expression `e` against a pattern written as Python source in which the names in `wild` match any
     sub-expression (the same wildcard must match the same text everywhere).  Returns the bindings or None."""
-    p = ast.parse(pattern, mode="eval").body
+    p = ast.parse(pattern, mode="eval").body if isinstance(pattern, str) else pattern
     b = {}
 
+    def is_wild(p):
+        return isinstance(p, ast.Name) and (p.id in wild if wild is not None else (len(p.id) >= 2 and p.id[0] == "_" and (p.id[1].isupper() or p.id[1].isdigit())))
+
     def go(p, x):
-        if isinstance(p, ast.Name) and (p.id in wild if wild is not None else (len(p.id) >= 2 and p.id[0] == "_" and (p.id[1].isupper() or p.id[1].isdigit()))):
+        if is_wild(p):
             t = norm(x)
             if p.id in b and b[p.id] != t:
                 return False
@@ -171,6 +175,25 @@ def match(pattern: str, e: ast.AST, wild=None) -> Optional[dict]:
             return True
         if type(p) is not type(x):
             return False
+        if isinstance(p, ast.Call):
+            # `*_R` as the last positional pattern matches any remaining positionals; `**_K` any remaining keywords;
+            # keywords are matched by name, not by position
+            if not go(p.func, x.func):
+                return False
+            pa, xa = list(p.args), list(x.args)
+            rest = bool(pa) and isinstance(pa[-1], ast.Starred) and is_wild(pa[-1].value)
+            if rest:
+                pa = pa[:-1]
+            if len(xa) < len(pa) or (not rest and len(xa) != len(pa)):
+                return False
+            if not all(go(a, c) for a, c in zip(pa, xa)):
+                return False
+            pk = [k for k in p.keywords if not (k.arg is None and is_wild(k.value))]
+            restk = len(pk) != len(p.keywords)
+            xk = {k.arg: k.value for k in x.keywords}
+            if any(k.arg not in xk for k in pk) or (not restk and (len(xk) != len(pk) or len(x.keywords) != len(pk))):
+                return False
+            return all(go(k.value, xk[k.arg]) for k in pk)
         for f in p._fields:
             if f in ("ctx",):
                 continue
@@ -285,6 +308,13 @@ def rnorm(e: ast.AST, fn: ast.AST, depth: int = 6) -> str:
     return norm(resolve(e, fn, depth))
 
 
+def deep(ix, fi, e: ast.AST, fn: ast.AST) -> ast.AST:
+    """`e` with temporaries resolved (flow-aware, inside `fn`) and then module constants / single-return helpers
+    of the module expanded: the form in which a rule pattern is matched."""
+    from .flow import Defs
+    return expand(ix, fi, resolve(e, fn), defs=Defs(fn))
+
+
 # ---------------------------------------------------------------- lexical condition context
 def _terminates(stmts) -> bool:
     if not stmts:
@@ -294,6 +324,12 @@ def _terminates(stmts) -> bool:
         return True
     if isinstance(last, ast.If):
         return _terminates(last.body) and _terminates(last.orelse)
+    if isinstance(last, ast.Try):
+        if _terminates(last.finalbody):
+            return True
+        return (_terminates(last.orelse) if last.orelse else _terminates(last.body)) and all(_terminates(h.body) for h in last.handlers)
+    if isinstance(last, (ast.With, ast.AsyncWith)):
+        return _terminates(last.body)
     return False
 
 
